@@ -37,6 +37,19 @@ CLAIMED = {
          "option methods follow the uniform switch shape. Structural necessary conditions for every option name/value; 'takes effect as documented' beyond the stored field is not decided.",
          "Known finding: xbus resize arm closes the pipe (listed in known_findings.json, not repairable without editing TestXBusResize).",
          "DESIGN.md 4/C19, 3.4 E10"),
+ "C10": ("static analysis: close-awareness of every blocking select and Cond.Wait loop (E4c) over SSA, anchored shape rules for Close paths, timers and transport pipes",
+         "Every blocking select in protocols, transports and core has a receive case on a channel that a Close/RemovePipe function closes (close idioms once/flag/removepipe), per-pipe goroutines that consume a shared queue wait on their own pipe's close channel, "
+         "every Cond.Wait loop re-checks a field the closer writes before broadcasting; core socket.Close closes listeners, dialers, protocol and pipes; endpoints are registered only on an open socket within one critical section; "
+         "protocol Close is a check-and-set returning ErrClosed the second time; transport pipe Close releases the connection unless Close already did; stored timers are stopped on cancel/close. "
+         "Structural necessary conditions of 'Close unblocks everything and releases resources' for every schedule; promptness and the absence of every other kind of leak are not decided.",
+         "Assumes channel-close wake-up semantics and the transport contract that closing a connection fails pending Read/Write.",
+         "DESIGN.md 4/C10, 3.4 E4"),
+ "C14": ("static analysis: anchored shape rules (guard atoms, dominance, load-before-store ordering, all-paths-pass) over SSA of internal/core.dialer",
+         "dial never calls the transport once closed (tested under the lock); Close stops the pending timer; the retry delay is the pre-growth reconnTime; growth happens only when a maximum is set and every path from it passes the clamp to the maximum; "
+         "synchronous failures return the error without scheduling; ErrClosed schedules nothing; pipeConnected/Dial reset the delay; pipeClosed always schedules a redial and every pipe close or protocol refusal reaches it. "
+         "Necessary structural conditions of reconnect/back-off for all fault sequences; measured spacing and jitter distribution are not decided.",
+         "Rules are anchored in the named functions of internal/core/dialer.go (ANCHOR-MISSING fails closed).",
+         "DESIGN.md 4/C14"),
 }
 
 NOT_YET = "check not built yet (work in progress; planned static rules in DESIGN.md section 4)"
